@@ -175,6 +175,8 @@ func runC07(c *Check, a *Analysis) {
 		c.Ob("R-CODE-ORDER", sc.key(r, "length thresholds = documented varint boundary"), r.Pos(), okS, ifs(!okS, fmt.Sprintf("single-byte length threshold is writer %v / reader %v, the documented varint format requires %v (a length of 128 must be written as 0x80 0x01)", wth, rth, thSpec)))
 	}
 
+	ruleVarintShape(c, a, "R-VARINT-SHAPE")
+
 	// ---- (3) json tags
 	c.Rule("R-JSON-TAGS", "json header structs carry the documented keys and Go types", 2)
 	jsonSpec := map[string][][3]string{
